@@ -300,7 +300,10 @@ impl PciFn {
         w[0x50 / 4 + 4] = 4;
         cap(&mut w, 0x68, if cfg_cap.is_some() { 0x78 } else { 0 }, 16, 3, 0x2000, 4);
         if let Some((off, len)) = cfg_cap {
-            cap(&mut w, 0x78, 0, 16, 4, off, len);
+            cap(&mut w, 0x78, 0x88, 16, 4, off, len);
+            // a second, larger device-configuration capability further down the list: the specification
+            // lets a device offer several and has the driver use the first; the window stays the first one
+            cap(&mut w, 0x88, 0, 16, 4, 0x4000, 160);
         }
         PciFn { words: Rc::new(RefCell::new(w)) }
     }
